@@ -56,7 +56,7 @@ def scenario_of(case):
         case["scenario_seed"],
         xps=("numpy", "numpy", "torch", "jax"), dtypes=(None, None, "float64", "float32"),
         particles=(12, 40) if quick else (12, 96), kernel_steps=(1, 2),
-        checkpoint_modes=("none",), n_final=("none",), rng_routes=("ctor",),
+        checkpoint_modes=("none",), n_final=("none",), rng_routes=("ctor",), offset_prob=0.2,
     )
     return scn
 
